@@ -21,7 +21,7 @@ package v2
 //@   ensures mathint(r) == dig(t)
 
 //@ func toInt(trits trinary.Trits) (r *big.Int)
-//@   requires implies(len(trits) == 243, forall(i, 0, 243, istrit(trits[i])))
+//@   requires implies(len(trits) == 243, forallx(i, 0, 243, istrit(trits[i])))
 //@   panics  when len(trits) != 243
 //@   loop 1 unroll
 //@   loop 2 unroll
@@ -104,8 +104,8 @@ package v2
 //@   panics  never
 //@   use forall(k, 0, 32, bt_unique(buf[6*k], buf[6*k+1], buf[6*k+2], buf[6*k+3], buf[6*k+4], buf[6*k+5], b1t6.sbyte(powDigest[k])))
 //@   use forall(k, 0, 8, bt_unique(buf[192+6*k], buf[193+6*k], buf[194+6*k], buf[195+6*k], buf[196+6*k], buf[197+6*k], b1t6.sbyte(byte(nonce >> (8*k)))))
-//@   check   forall(k, 0, 243, buf[k] == powin(powDigest, nonce, k))
-//@   check   forall(j, 0, 243, digest[j] == hashcat("curlp81", mkarray(243, k, powin(powDigest, nonce, k)))[j])
+//@   check   forallx(k, 0, 243, buf[k] == powin(powDigest, nonce, k))
+//@   check   forallx(j, 0, 243, digest[j] == hashcat("curlp81", mkarray(243, k, powin(powDigest, nonce, k)))[j])
 //@   ensures r != nil && *r == floordiv(pow(3, 243), curlhv(powDigest, nonce))
 
 // Score: floor(difficulty / length) saturated at 2^64-1, with difficulty = floor(3^243 / h) and h the
@@ -153,7 +153,7 @@ package v2
 // >= l*x gives a score >= x.
 //@ lemma hval_tz(t [243]int8, s int)
 //@   props C12
-//@   requires 0 <= s && s <= 243 && forall(j, 0, 243, istrit(t[j])) && forall(j, 0, 243, implies(j >= 243 - s, t[j] == 0))
+//@   requires 0 <= s && s <= 243 && forallx(j, 0, 243, istrit(t[j])) && forallx(j, 0, 243, implies(j >= 243 - s, t[j] == 0))
 //@   ensures  1 + sum(i, 0, 243, dig(t[i]) * pow(3, i)) <= pow(3, 243 - s)
 //@ lemma diff_a1(h mathint, s int, lx mathint)
 //@   props C12
@@ -176,7 +176,7 @@ package v2
 // difficulty above l*x, so skipping it passes over nothing.
 //@ lemma hval_ntz(t [243]int8, s int, j int)
 //@   props C12
-//@   requires 1 <= s && s <= 243 && forall(k, 0, 243, istrit(t[k])) && 244 - s <= j && j < 243 && t[j] != 0
+//@   requires 1 <= s && s <= 243 && forallx(k, 0, 243, istrit(t[k])) && 244 - s <= j && j < 243 && t[j] != 0
 //@   ensures  1 + sum(i, 0, 243, dig(t[i]) * pow(3, i)) >= 1 + pow(3, 244 - s)
 //@ lemma diff_a3b(h mathint, s int, lx mathint)
 //@   props C12
